@@ -126,7 +126,13 @@ func (c *fnCtx) havocKey(key string) {
 // havocAll forgets everything about the heap (keeps the watermark monotone).
 func (c *fnCtx) havocAll() {
 	wm := c.heapGet("$wm")
+	old := c.st
 	c.st = &State{epoch: c.em.newEpoch(), m: map[string]string{}}
+	for k, v := range old.m {
+		if strings.HasPrefix(k, "ghost:") {
+			c.st.m[k] = v // ghost state changes only through its own events
+		}
+	}
 	n := c.em.fresh("wm")
 	c.em.decl(n, "Int")
 	c.em.assert("(>= " + n + " " + wm + ")")
